@@ -192,13 +192,72 @@ harness("c04.single3", prop="C04", traced=(), horizon=100,
         params=_params(SINGLE, ("sync", "manual"), P3x1))(body)
 oracle("c04.single3")(check)
 
+def _kparams():
+    out = []
+    for comb in ("zip", "and", "or", "sequence", "or_nested", "and_nested", "zip_nested"):
+        for how in ("value", "falsy", "exception", "cancel"):
+            for cb in ("cancel_sibling", "chain"):
+                out.append(dict(comb=comb, how=how, cb=cb))
+    return out
+
+
+def kbody(mc, p):
+    from mc.kit import ProbeFuture, E2
+    from more_executors._impl import futures as F
+    a, b = ProbeFuture(mc, "a"), ProbeFuture(mc, "b")
+    c = p["comb"]
+    out = {"zip": lambda: F.f_zip(a, b), "and": lambda: F.f_and(a, b), "or": lambda: F.f_or(a, b),
+           "sequence": lambda: F.f_sequence([a, b]), "or_nested": lambda: F.f_or(F.f_or(a, b), b),
+           "and_nested": lambda: F.f_and(F.f_and(a, b), b), "zip_nested": lambda: F.f_zip(F.f_zip(a, b), b)}[c]()
+    if p["cb"] == "cancel_sibling":
+        out.add_done_callback(lambda _f: b.cancel())
+    else:
+        out.add_done_callback(lambda _f: F.f_map(out, lambda v: v))
+
+    def completer():
+        if p["how"] == "cancel":
+            a.cancel()
+            a.set_running_or_notify_cancel()
+        elif a.set_running_or_notify_cancel():
+            if p["how"] == "value":
+                a.set_result(1)
+            elif p["how"] == "falsy":
+                a.set_result(0)
+            else:
+                a.set_exception(E2("x"))
+        mc.emit("op.done", op="complete")
+
+    def second():
+        mc.point()
+        b.cancel()
+        b.set_running_or_notify_cancel()
+        mc.emit("op.done", op="cancel_b")
+    mc.spawn(completer, "c0")
+    mc.spawn(second, "c1")
+    mc.sleep(5)
+
+
+def kcheck(x):
+    stuck = stuck_threads(x)
+    if stuck or x.end in ("deadlock", "horizon"):
+        rows = stuck or [r for r in x.table if r["state"] == "blocked" and r["on_kind"] in ("lock", "join")]
+        if rows:
+            for root in root_cause(x, rows) or ["unknown"]:
+                x.require(False, "deadlock", detail="end=%s stuck=%s" % (x.end, [(r["name"], r["on"], r["on_owner"]) for r in rows]),
+                          root=root, base="comb:" + x.p["comb"], nested=False)
+    x.require(len([e for e in x.log if e["kind"] == "op.done"]) == 2 or bool(stuck), "client-never-returned", end=x.end)
+
+
+harness("c04.comb", prop="C04", traced=(), horizon=30, params=_kparams())(kbody)
+oracle("c04.comb")(kcheck)
+
 PLAN = {
     "quick": [dict(harness="c04.single2", bound=2),
               dict(harness="c04.single2tp", bound=1),
-              dict(harness="c04.stacks2", bound=1)],
+              dict(harness="c04.stacks2", bound=1), dict(harness="c04.comb", bound=2)],
     "thorough": [dict(harness="c04.single2", bound=3),
                  dict(harness="c04.single2tp", bound=2),
                  dict(harness="c04.stacks2", bound=2),
                  dict(harness="c04.single2x2", bound=1),
-                 dict(harness="c04.single3", bound=2)],
+                 dict(harness="c04.single3", bound=2), dict(harness="c04.comb", bound=3)],
 }
